@@ -8,9 +8,9 @@ import semprop
 from props import _generic
 
 MODULE = "NgoVerif.Props.C12"
-LEVEL = ('Lean: over a finite domain with its covering relation, chain(v) <=> v <= max, the result rule picks exactly the maximum (given a selected element), no chain atom holds when nothing is selected (the #inf/#sup case), chain/next rules are a conservative positive-recursive extension (M4 =>), chain differences telescope to the extreme value. The rule templates, the choice simple/chain translation and the replacement of results in sums/objectives are modelled in Model/MinMax.lean (tied by corr_minmax.py: minmax_rules, minmax, minmax_info) on top of Model/Dependency.lean; their side conditions are validated with clingo (no candidate, one, negatives, gaps, duplicates, groups with and without elements, costs).')
+LEVEL = ('Lean: over a finite domain with its covering relation, chain(v) <=> v <= max, the result rule picks exactly the maximum (given a selected element), no chain atom holds when nothing is selected (the #inf/#sup case), chain/next rules are a conservative positive-recursive extension (M4 =>), chain differences telescope to the extreme value; the argument position of the chain atom that receives the chain variable is the one holding the result of the old atom (C12_result_position, over the model of translate_parameters). The rule templates, the choice simple/chain translation and the replacement of results in sums/objectives are modelled in Model/MinMax.lean (tied by corr_minmax.py: minmax_rules, minmax, minmax_info) on top of Model/Dependency.lean; their side conditions are validated with clingo (no candidate, one, negatives, gaps, duplicates, groups with and without elements, costs).')
 RULE = ('oracle cases = programs harvested from /repo/tests (dependency,minmax_aggregates first) mutations of them and programs of a targeted type-directed generator (harness/tgen.py) under minmax_chains only, 5 instances each (empty, small integer/symbolic domains, dense tiny domains, duplicates) over the input predicates; compared: answer sets on voc(P) one-to-one + costs; non-trivial = the pass changed the program and at least one instance was compared; distinct by program+flags')
-EXTRA = ['{ sel(P,V) } :- skill(P,V). res(X,P) :- person(P), X = #max { V : sel(P,V) }. :~ res(X,P). [X@0,P]', '{ sel(P,V) } :- skill(P,V). res(X,P) :- person(P), X = #min { V : sel(P,V) }. tot(S) :- S = #sum { X,P : res(X,P) }.', '{skill(X,V)} :- d(X,V). best(__PREV,M) :- p(__PREV), M = #max{V : skill(__PREV,V)}.', '{skill(X,V)} :- d(X,V). best(P,M) :- p(P), M = #max{V : skill(P,V)}. :~ best(__NEXT,M), q(__NEXT,__PREV). [M,__NEXT,__PREV]', {'program': '{ sel(P,V) } :- skill(P,V). sel(P,0) :- person(P). res(X) :- X = #min { V: sel(_,V) }. :~ res(X). [X@0]', 'inp': [['person', 1], ['skill', 2], ['res', 1]], 'instances': ['person(3). res(1).', 'person(1). skill(1,2). res(5). res(0).']}, '{q(1..5)}. in_band :- 3 < #max{X : q(X)} < 7.', '{q(1..5)}. low :- 7 > #min{X : q(X)} >= 3.', 'person(2). person(-2). skill(2,3). skill(-2,5). {pick(P,V)} :- skill(P,V). max(P,V) :- person(P), V = #max{S : pick(P,S)}. #minimize{ V,P : max(P,V) }.', '{q(X)} :- d(X). m(M) :- M = #max{X : q(X)}. n(M) :- M = #min{X : q(X)}.', '{q(X)} :- d(X). a :- #max{X : q(X)} >= 2. b :- #min{X : q(X)} <= 1. c :- #max{X : q(X)} < 2.']
+EXTRA = ['{opt(S,V)} :- o(S,V). best(M,X) :- M = #max{V : opt(S,V)}, S = #sum{W,X : item(X), weight(X,W)}, d(X).', '{ sel(P,V) } :- skill(P,V). res(X,P) :- person(P), X = #max { V : sel(P,V) }. :~ res(X,P). [X@0,P]', '{ sel(P,V) } :- skill(P,V). res(X,P) :- person(P), X = #min { V : sel(P,V) }. tot(S) :- S = #sum { X,P : res(X,P) }.', '{skill(X,V)} :- d(X,V). best(__PREV,M) :- p(__PREV), M = #max{V : skill(__PREV,V)}.', '{skill(X,V)} :- d(X,V). best(P,M) :- p(P), M = #max{V : skill(P,V)}. :~ best(__NEXT,M), q(__NEXT,__PREV). [M,__NEXT,__PREV]', {'program': '{ sel(P,V) } :- skill(P,V). sel(P,0) :- person(P). res(X) :- X = #min { V: sel(_,V) }. :~ res(X). [X@0]', 'inp': [['person', 1], ['skill', 2], ['res', 1]], 'instances': ['person(3). res(1).', 'person(1). skill(1,2). res(5). res(0).']}, '{q(1..5)}. in_band :- 3 < #max{X : q(X)} < 7.', '{q(1..5)}. low :- 7 > #min{X : q(X)} >= 3.', 'person(2). person(-2). skill(2,3). skill(-2,5). {pick(P,V)} :- skill(P,V). max(P,V) :- person(P), V = #max{S : pick(P,S)}. #minimize{ V,P : max(P,V) }.', '{q(X)} :- d(X). m(M) :- M = #max{X : q(X)}. n(M) :- M = #min{X : q(X)}.', '{q(X)} :- d(X). a :- #max{X : q(X)} >= 2. b :- #min{X : q(X)} <= 1. c :- #max{X : q(X)} < 2.']
 
 
 def corr(rng, quick):
